@@ -124,10 +124,11 @@ def cmd_run_scratch(name, checks):
     stays untouched (needed while a background run is using /repo). Outcome stored under the same keys."""
     sys.path.insert(0, os.path.dirname(__file__))
     import mutsweep
-    w = "/root/scratch/mut/wseed"
+    wname = os.environ.get("SEED_WORKER", "seed")  # several runners side by side: SEED_WORKER=seedB ...
+    w = "/root/scratch/mut/w" + wname
     if not os.path.exists(w + "/verif/check") or "--fresh" in checks:
         checks = [c for c in checks if c != "--fresh"]
-        mutsweep.setup_worker("seed")
+        mutsweep.setup_worker(wname)
     m = load_meta(name)
     d = os.path.join(ROOT, name)
     key = ""
